@@ -38,6 +38,7 @@ type faultDB struct {
 	onCommit func(k int)
 
 	armed    bool
+	paused   bool   // harness-internal reads (not part of the operation under test) are neither counted nor faulted
 	byKind   string // if set: fail the failAt-th call of this kind instead of the failAt-th call
 	kindN    int
 	failAt   int
@@ -74,6 +75,9 @@ func (f *faultDB) disarm() (bool, string, int) {
 func (f *faultDB) tick(kind string) error {
 	f.mu.Lock()
 	defer f.mu.Unlock()
+	if f.paused {
+		return nil
+	}
 	f.kinds[kind]++
 	if !f.armed {
 		return nil
@@ -323,4 +327,16 @@ func sortedKeys(m map[string]int) []string {
 	}
 	sort.Strings(ks)
 	return ks
+}
+
+// unfaulted runs a harness-internal query with fault injection suspended.
+func unfaulted(e *WEnv, q func() string) string {
+	if f, ok := e.wdb.(*faultDB); ok {
+		f.mu.Lock()
+		old := f.paused
+		f.paused = true
+		f.mu.Unlock()
+		defer func() { f.mu.Lock(); f.paused = old; f.mu.Unlock() }()
+	}
+	return q()
 }
